@@ -4,7 +4,7 @@ from sim import history
 PROP = 'C07'
 TECHNIQUE = 'deterministic simulation: seeded overlap-rich histories; chunk objects == referenced chunks and journal-level upload accounting'
 LEVEL = 'exploration'
-RULE = ('one case = a crash-free seeded history of snapshot / delete / clean by users with the same, shared or independent keys '
+RULE = ('[users are processes per command or long-lived programs that keep one Repository object across commands] one case = a crash-free seeded history of snapshot / delete / clean by users with the same, shared or independent keys '
         'over file sets with engineered overlap (identical files, shared aligned prefixes / suffixes, repeated blocks) at '
         'concurrency 1..4; after every command the independent reader computes, per key family, the set of chunk objects and '
         'the set of distinct chunks referenced by remaining snapshots (must be equal; families must not share names), and the '
